@@ -160,6 +160,16 @@ MergeOther == \E name \in Subjects, i \in Incs, st \in {"suspect", "dead", "left
                                            meta |-> "", vsn |-> <<>>])
                IN Step(mc.op, "merge", FALSE, FALSE, mc.msg)
 
+\* alive gossip arriving in a UDP packet (handleAlive): the source address and the
+\* claimed address are checked against the allowlist before aliveNode is reached
+UdpAlive == \E name \in Subjects, i \in Incs, m \in Metas, v \in Vsns, srcOk \in BOOLEAN : \E a \in AddrsFor(name) :
+  /\ cfg.allowOn
+  /\ IF srcOk /\ Allowed(a)
+     THEN Step("alive", "udp", FALSE, FALSE, AliveClaim(name, i, a, m, v))
+     ELSE /\ ev' = [ev |-> "UdpAlive", n |-> Self, t |-> now, srcAllowed |-> srcOk, nodeOps |-> 0,
+                    claim |-> AliveClaim(name, i, a, m, v), cfg |-> CfgOut, world |-> World]
+          /\ UNCHANGED core
+
 \* the suspicion callback of the current timer
 TimerFire == \E p \in Names :
   /\ timer[p].on
@@ -215,7 +225,7 @@ LeaveDead == /\ pendLeave = 2
              /\ pendLeave' = 3
              /\ UNCHANGED <<pendUpd, pendLeaveInc>>
 
-Next == \/ RecvAlive \/ RecvSuspect \/ RecvDead \/ MergeAlive \/ MergeOther
+Next == \/ RecvAlive \/ RecvSuspect \/ RecvDead \/ MergeAlive \/ MergeOther \/ UdpAlive
         \/ TimerFire \/ StaleFire \/ Reap \/ Tick
         \/ UpdTake \/ UpdApply \/ LeaveFlag \/ LeaveRead \/ LeaveDead
 
@@ -229,15 +239,20 @@ View == core
 \* generator: one JSON line per generated transition - the view before the step
 \* and the action, which is all a replayer needs
 DumpRec ==
-  CASE ev.ev = "NodeOp"    -> [kind |-> "nodeop", cfg |-> ev.cfg, world |-> ev.world, op |-> ev.op, via |-> ev.via,
+  CASE ev.ev = "NodeOp" /\ ev.via = "udp"
+                           -> [kind |-> "udpalive", cfg |-> ev.cfg, world |-> ev.world, srcOk |-> TRUE, claim |-> ev.claim,
+                               node |-> ev.claim.node]
+    [] ev.ev = "UdpAlive"  -> [kind |-> "udpalive", cfg |-> ev.cfg, world |-> ev.world, srcOk |-> ev.srcAllowed,
+                               claim |-> ev.claim, node |-> ev.claim.node]
+    [] ev.ev = "NodeOp"    -> [kind |-> "nodeop", cfg |-> ev.cfg, world |-> ev.world, op |-> ev.op, via |-> ev.via,
                                boot |-> ev.boot, notify |-> ev.notify, claim |-> ev.claim, node |-> ev.claim.node]
     [] ev.ev = "Reap"      -> [kind |-> "reap", cfg |-> ev.cfg, world |-> ev.world]
     [] ev.ev = "StaleFire" -> [kind |-> "stalefire", cfg |-> ev.cfg, world |-> ev.world, node |-> ev.node]
-Dump == (Dumping /\ ev.ev \in {"NodeOp", "Reap", "StaleFire"}) => PrintT(<<"E", ToJson(DumpRec)>>)
+Dump == (Dumping /\ ev.ev \in {"NodeOp", "Reap", "StaleFire", "UdpAlive"}) => PrintT(<<"E", ToJson(DumpRec)>>)
 
 -----------------------------------------------------------------------------
 (* Properties on the model: every transition satisfies every step predicate *)
-StepOK(e) == \A i \in DOMAIN StepProps : (e.ev \in {"NodeOp", "Reap"}) => StepHolds(StepProps[i], e)
+StepOK(e) == \A i \in DOMAIN StepProps : (e.ev \in {"NodeOp", "Reap", "UdpAlive"}) => StepHolds(StepProps[i], e)
 P_Step    == [][StepOK(ev')]_vars
 P_C07     == [][(ev'.ev \in {"NodeOp", "Reap"}) => (C07_Order(ev', ghost) /\ C07_Log(ev', ghost))]_vars
 
